@@ -359,6 +359,45 @@ fn main() {
             println!("temp_left={}", exists(&tp));
             println!("table_left={}", exists(&tb));
         }
+        // stale_temp_before_switch : a closed database (manifests are never reused) gets leftover temporary files under every number a
+        // following manifest switch could use (what a crash between writing the temp file and renaming it to CURRENT leaves); the
+        // reopen switches to a new manifest; CURRENT must then hold exactly one line and the next open must succeed
+        "stale_temp_before_switch" => {
+            use raindb::WriteOptions;
+            let mut o = raindb::DbOptions::with_memory_env();
+            o.db_path = "db".to_string();
+            o.create_if_missing = true;
+            o.reuse_log_files = false;
+            {
+                let db = raindb::DB::open(o.clone()).expect("open");
+                db.put(WriteOptions::default(), b"k".to_vec(), b"v".to_vec()).unwrap();
+            }
+            for n in 1..40u64 {
+                let tp = v::temp_path(&o, n);
+                let mut f = o.filesystem_provider().create_file(&tp, false).unwrap();
+                f.append(b"MANIFEST-000000.manifest\n").unwrap();
+            }
+            match raindb::DB::open(o.clone()) {
+                Ok(_db) => println!("second_open=ok"),
+                Err(e) => println!("second_open=err {}", e),
+            }
+            let cur = v::manifest_path(&o, 1).parent().unwrap().join("CURRENT");
+            let mut text = String::new();
+            if let Ok(mut f) = o.filesystem_provider().open_file(&cur) {
+                let mut buf = vec![];
+                let _ = std::io::Read::read_to_end(&mut f, &mut buf);
+                text = String::from_utf8_lossy(&buf).to_string();
+            }
+            println!("current={}", text.replace('\n', "\\n"));
+            println!("current_lines={}", text.matches('\n').count());
+            match raindb::DB::open(o.clone()) {
+                Ok(db) => {
+                    println!("third_open=ok");
+                    println!("value={}", db.get(raindb::ReadOptions::default(), b"k").map(|v| String::from_utf8_lossy(&v).to_string()).unwrap_or_else(|e| format!("err {}", e)));
+                }
+                Err(e) => println!("third_open=err {}", e),
+            }
+        }
         // filter_policy_sweep : tables of 700 tiny entries in 64-byte blocks, Bloom filters with 1, 10, 30, 43, 44, 50 and 64 bits per key
         // (single filters longer than 2 KiB and filters with the maximal 30 probes among them); every stored key is looked up
         "filter_policy_sweep" => {
